@@ -209,7 +209,11 @@ func (r *run) one(s stmt, allEndpoints bool) {
 	c.Tag("decision:" + dec)
 	c.Tag(fmt.Sprintf("status:%d", o.status))
 	// consistency of the handler with its parts (tie of the op line to the HTTP path)
-	if (dec != "ok") != (o.status == 400) && kind == 0 && len(s.sql) > 0 {
+	if o.status == 599 {
+		c.Tag("test-transport-error")
+		o = r.e.query("/api/v1/query", s.sql, s.hdr) // once more
+	}
+	if (dec != "ok") != (o.status == 400) && kind == 0 && len(s.sql) > 0 && o.status != 599 {
 		c.Fail("harness-inconsistent:decision-vs-status", fmt.Sprintf("decision %s but HTTP status %d", dec, o.status), r.scrub(replayLine("/api/v1/query", s)))
 	}
 	if kind == 0 && inScope(s.sql, s.hdr) {
@@ -459,6 +463,7 @@ func main() {
 	c.Extra["grid_statements"] = len(grid)
 	c.Extra["random_statements"] = done
 	c.Extra["seconds"] = int(time.Since(t0).Seconds())
+	c.Extra["test_transport_errors"] = e.testErrs
 	c.Finish("non-trivial = statement accepted by ValidateSQLRequest + header rules and carrying a disguise family other than plain")
 }
 
